@@ -24,7 +24,7 @@ func init() {
 		Controls: []Control{
 			{Name: "odd-length-capability-returned-without-value", File: "protocols/bgp/packet/decoder.go", Old: "\tswitch cap.Code {\n\tcase MultiProtocolCapabilityCode:\n\t\tmpCap, err := decodeMultiProtocolCapability(buf)", New: "\tif cap.Code == ASN4CapabilityCode && cap.Length != 4 {\n\t\t_, err := buf.Read(make([]byte, cap.Length))\n\t\treturn cap, err\n\t}\n\tswitch cap.Code {\n\tcase MultiProtocolCapabilityCode:\n\t\tmpCap, err := decodeMultiProtocolCapability(buf)", Expect: "union-value-stored-before-success"},
 			{Name: "open-sent-re-entered-by-its-hold-timer-check", File: "protocols/bgp/server/fsm_open_sent.go", Old: "\t\t\tif _, same := next.(*openSentState); same {\n", New: "\t\t\tif _, same := next.(*openSentState); same && reason == \"\" {\n", Expect: "one-receiver-per-connection"},
-			{Name: "collision-check-stops-at-first-non-openconfirm", File: "protocols/bgp/server/peer.go", Old: "\t\tif !isOpenConfirm {\n\t\t\tcontinue\n\t\t}\n", New: "\t\tif !isOpenConfirm {\n\t\t\treturn false\n\t\t}\n", Expect: "collision-path"},
+			{Name: "established-session-goes-through-the-tie-break", File: "protocols/bgp/server/peer.go", Old: "\t\tif isEstablished {\n\t\t\treturn true\n\t\t}\n\n\t\tif !isOpenConfirm {\n", New: "\t\tif !isOpenConfirm && !isEstablished {\n", Expect: "collision-path"},
 			{Name: "as4path-counts-as-aspath", File: "protocols/bgp/packet/decoder.go", Old: "\t\tcase ASPathAttr:\n\t\t\thaveASPath = true\n\t\tcase NextHopAttr:", New: "\t\tcase ASPathAttr, AS4PathAttr:\n\t\t\thaveASPath = true\n\t\tcase NextHopAttr:", Expect: "mandatory-attributes"},
 			{Name: "reserved-octet-skipped-before-the-emptiness-test", File: "protocols/bgp/packet/mp_reach_nlri.go", Old: "\tif budget == 0 {\n\t\treturn n, nil\n\t}\n\n\tvariable = variable[1+nextHopLength:] // 1 <- RESERVED field\n", New: "\tvariable = variable[1+nextHopLength:] // 1 <- RESERVED field\n\tif budget == 0 {\n\t\treturn n, nil\n\t}\n", Expect: "decoder-no-panic"},
 			{Name: "addpath-capability-for-unconfigured-family", File: "protocols/bgp/server/fsm_open_sent.go", Old: "\t\tf := s.fsm.addressFamily(addPathCapTuple.AFI, addPathCapTuple.SAFI)\n\t\tif f == nil {\n\t\t\tcontinue\n\t\t}\n", New: "\t\tf := s.fsm.addressFamily(addPathCapTuple.AFI, addPathCapTuple.SAFI)\n", Expect: "family-lookup-result-guarded"},
